@@ -95,6 +95,19 @@ def build_files(text, intervals):
     return main, files, max([depth_of(r) for r in roots] or [0])
 
 
+def balanced(content):
+    from model_lex import lex as _lex
+    d = 0
+    for tk in _lex(content):
+        if tk.kind == "{":
+            d += 1
+        elif tk.kind == "}":
+            d -= 1
+            if d < 0:
+                return False
+    return d == 0
+
+
 def values_only(tree):
     """names, titles and values; an aborted parse may leave flag bits of the option it was assigning changed"""
     if tree is None:
@@ -111,7 +124,8 @@ class C13:
             "(relative, absolute or ~nobody-prefixed names) or behind a search path of 1-3 directories (optionally with "
             "same-named directories as decoys in the directories asked first); differential oracle: same return code "
             "and tree as the flat text for nesting <= 10, PARSE_ERROR with >= 1 diagnostic beyond; an error placed after the "
-            "include is reported at the including source's name and line; failure histories (missing relative file, missing "
+            "include is reported at the including source's name and line, and an offending item inserted at a random item boundary of the split text "
+            "(any body, any file; directed: a plain section opened in several sources, every boundary) at the name and line of the source that holds it; failure histories (missing relative file, missing "
             "absolute file and directory - both with a decoy regular file at <search dir>/<that absolute name> -, "
             "self-inclusion, 11-deep chain, bad content, unterminated string; each repeated 1-12 times) followed by the "
             "split text must behave as in a fresh process; afterwards include depth 0, no stream/descriptor/memory left. "
@@ -169,10 +183,26 @@ class C13:
             new = (offs[i], offs[j])
             if all((new[1] <= a or new[0] >= b) or (a <= new[0] and new[1] <= b) for a, b in intervals):
                 intervals.append(new)
+        for a, b in case.get("intervals_at", []):
+            intervals.append((text.index(a), text.index(b)))
         for _ in range(case.get("chain", 0)):
             if intervals:
                 intervals.append(intervals[-1])
         main, files, depth = build_files(text, intervals)
+        # F: the same split with an offending item inserted at one item boundary (any body, any file): the diagnostic
+        # must name the source that holds it and its line there
+        err = None
+        if case.get("errpos") is not None and marks and depth <= 10:
+            off = marks[int(case["errpos"] * len(marks)) % len(marks)]["off"]
+            ins = "\nzz_marker_c13 = = 1\n"
+            sh = lambda x, end: x + len(ins) if (x > off or (end and x == off)) else x
+            text_e = text[:off] + ins + text[off:]
+            main_e, files_e, _d = build_files(text_e, [(sh(a, False), sh(b, True)) if a < off else (a + len(ins), b + len(ins)) for a, b in intervals])
+            err = [main_e, files_e]
+            # (a file that closes or opens a section of its includer is legal, but where the text around it "stands" is
+            # not something the property defines: positions are judged only when every file is balanced in itself)
+            if not all(balanced(c) for c in files_e.values()):
+                err = None
         # layout
         fx = fixture_dir()
         _counter[0] += 1
@@ -194,19 +224,23 @@ class C13:
         for k, n in enumerate(names):
             d = base if mode in ("cwd", "tilde") else dirs[(k + case.get("salt", 0)) % (1 if mode == "path1" else 3)]
             place[n] = os.path.join(d, n)
-        if mode == "abs":
-            # absolute include names
-            for n in names:
-                main = main.replace("include(\"%s\")" % n, "include(\"%s\")" % place[n])
-                for f in files:
-                    files[f] = files[f].replace("include(\"%s\")" % n, "include(\"%s\")" % place[n])
         if mode == "tilde":
-            # names that start with a tilde but name no account: used as they are, relative to the working directory
             for n in names:
                 place[n] = os.path.join(base, "~zz9" + n)
-                main = main.replace("include(\"%s\")" % n, "include(\"~zz9%s\")" % n)
-                for f in files:
-                    files[f] = files[f].replace("include(\"%s\")" % n, "include(\"~zz9%s\")" % n)
+
+        def rename(mn, fl):
+            fl = dict(fl)
+            for n in names:
+                # absolute include names / names that start with a tilde but name no account (used as they are,
+                # relative to the working directory)
+                to = place[n] if mode == "abs" else ("~zz9" + n if mode == "tilde" else n)
+                mn = mn.replace("include(\"%s\")" % n, "include(\"%s\")" % to)
+                for f in fl:
+                    fl[f] = fl[f].replace("include(\"%s\")" % n, "include(\"%s\")" % to)
+            return mn, fl
+        main, files = rename(main, files)
+        if err:
+            err = list(rename(*err))
         if mode == "path3" and case.get("decoys"):
             # a directory of the same name in every search directory that is asked before the one holding the file
             for k, n in enumerate(names):
@@ -274,6 +308,15 @@ class C13:
             ie = s.add("parse_buf", 5, hx(main))
             s.add("free", 5)
             s.add("mkfile", hx(place[en]), hx(files[en]))
+        jf = None
+        if err:
+            for n in names:
+                s.add("mkfile", hx(place[n]), hx(err[1][n]))
+            init(6)
+            jf = s.add("parse_buf", 6, hx(err[0]))
+            s.add("free", 6)
+            for n in names:
+                s.add("mkfile", hx(place[n]), hx(files[n]))
         init(4)
         fk = case.get("fail_kind", "missing")
         target = {"missing": "nonexistent.conf", "missing-abs": os.path.join(base, "absent.conf"), "directory": os.path.join(base, "adir"), "self": os.path.join(base, "self.conf"),
@@ -324,6 +367,18 @@ class C13:
                 elif dg[-1][1] != e_line or os.path.basename(dg[-1][0] or "") != os.path.basename(want):
                     fail = Failure("error-after-nested-include/%s" % ("line" if os.path.basename(dg[-1][0] or "") == os.path.basename(want) else "file"),
                                    "error on line %d of %s (after its nested include returned) reported as %r\nfile %r" % (e_line, en, dg[-1], bad_text))
+            if fail is None and jf is not None:
+                dg = unhex_diag(t[jf])
+                holder = [n for n in names if "zz_marker_c13" in err[1][n]]
+                src = err[1][holder[0]] if holder else err[0]
+                want = ("[buf]" if not holder else (place[holder[0]] if mode in ("abs", "path1", "path3") else ("~zz9" + holder[0] if mode == "tilde" else holder[0])))
+                wline = src[:src.index("zz_marker_c13")].count("\n") + 1
+                cl.append("error-inside/" + ("included" if holder else "main"))
+                if t[jf]["rc"] != 1 or not dg:
+                    fail = Failure("error-inside-split-not-reported", "rc %d diag %r\nmain %r\nfiles %r" % (t[jf]["rc"], dg, err[0], err[1]))
+                elif os.path.basename(dg[-1][0] or "") != os.path.basename(want) or dg[-1][1] != wline:
+                    fail = Failure("error-inside-split/%s" % ("line" if os.path.basename(dg[-1][0] or "") == os.path.basename(want) else "file"),
+                                   "offending item on line %d of %s reported as %r\nmain %r\nfiles %r" % (wline, want, dg[-1], err[0], err[1]))
             if fail is None and case.get("fail_repeat"):
                 bad = [k for k in hist if t[k]["rc"] != 1 or not unhex_diag(t[k])]
                 misplaced = [k for k in hist if fk in ("missing", "missing-abs") and unhex_diag(t[k]) and unhex_diag(t[k])[-1][:2] != ("[buf]", 1)]
@@ -365,7 +420,8 @@ class C13:
             return {"schema": sc, "flags": flags, "tokens": toks, "splits": [list(x) for x in splits], "chain": chain,
                     "mode": draw(st.sampled_from(["cwd", "cwd", "abs", "path1", "path3", "path3", "tilde"])), "salt": draw(st.integers(0, 2)),
                     "decoys": draw(st.booleans()), "nest": draw(st.one_of(st.none(), st.none(), st.floats(0, 0.999))),
-                    "fail_kind": draw(st.sampled_from(FAIL_KINDS)), "fail_repeat": draw(st.sampled_from([0, 0, 1, 2, 11, 12]))}
+                    "fail_kind": draw(st.sampled_from(FAIL_KINDS)), "fail_repeat": draw(st.sampled_from([0, 0, 1, 2, 11, 12])),
+                    "errpos": draw(st.floats(0, 0.999))}
         return case()
 
     def run(self, r):
@@ -378,6 +434,14 @@ class C13:
                                   "chain": 0, "mode": mode, "fail_kind": fk, "fail_repeat": rep})
         for chain in range(0, 13):
             cases.append({"schema": "c13", "flags": 0, "text": base, "splits": [[0.0, 0.0, 0.5, False]], "chain": chain, "mode": "cwd"})
+        # a plain section opened in several sources, an offending item at every item boundary
+        again = "i = 1\nsingle { x = 2 }\ntm a { x = 4 }\nsingle { x = 3\n inner { z = 3 }\n}\nil += {3}\nsingle {\n inner { z = 4 } }\ns = end\n"
+        for iv in ([("single { x = 2", "tm a")], [("single { x = 3", "il +=")], [("single { x = 2", "tm a"), ("single { x = 3", "il +=")],
+                   [("i = 1", "tm a"), ("single { x = 2", "tm a")], [("single {\n inner", "s = end")], [("x = 3", "}\nil"), ("inner { z = 3", "}\nil")],
+                   [("single { x = 2", "tm a"), ("single {\n inner", "s = end"), ("inner { z = 4", " }\ns = end")]):
+            for k in range(24):
+                for mode in ("cwd", "path3", "abs"):
+                    cases.append({"schema": "c13", "flags": 0, "text": again, "splits": [], "intervals_at": iv, "chain": 0, "mode": mode, "errpos": k / 24.0})
         r.run_cases(cases, chunksize=2)
         r.run_hypothesis(12000 if r.tier == "quick" else 200000)
 
